@@ -8,6 +8,7 @@ import (
 	"os"
 	"os/exec"
 	"path/filepath"
+	"regexp"
 	"strings"
 	"time"
 
@@ -113,7 +114,12 @@ func TestVerifReplay(t *testing.T) {
 	if rf.Kind != "witness" {
 		count = "-count=12"
 	}
-	cmd := exec.CommandContext(ctx, "go", "test", "-tags", "verifreplay", "-vet=off", count, "-failfast", "-timeout", "120s", "-overlay", ovPath, "-run", "^TestVerifReplay$", "-v", repoMod+"/"+rf.Pkg)
+	args := []string{"test", "-tags", "verifreplay", "-vet=off", count, "-failfast", "-timeout", "120s", "-overlay", ovPath, "-run", "^TestVerifReplay$", "-v"}
+	if rf.Kind == "race" {
+		// a data race found by the happens-before analysis is confirmed with Go's own race detector
+		args = append(args, "-race")
+	}
+	cmd := exec.CommandContext(ctx, "go", append(args, repoMod+"/"+rf.Pkg)...)
 	cmd.Dir = repoDir
 	cmd.Env = append(os.Environ(), "GOFLAGS=-mod=mod", "GOPROXY=off", "GOSUMDB=off", "GOTOOLCHAIN=local", "VERIF_REPLAY="+rfPath)
 	out, _ := cmd.CombinedOutput()
@@ -125,6 +131,20 @@ func TestVerifReplay(t *testing.T) {
 		return false, s, nil
 	}
 	switch rf.Kind {
+	case "race":
+		// reproduced iff a DATA RACE report of the native run names one of the two source positions
+		pos := regexp.MustCompile(`[A-Za-z0-9_]+\.go:\d+`).FindAllString(rf.Msg, -1)
+		for _, blk := range strings.Split(s, "==================") {
+			if !strings.Contains(blk, "DATA RACE") {
+				continue
+			}
+			for _, p := range pos {
+				if strings.Contains(blk, p) {
+					return true, s, nil
+				}
+			}
+		}
+		return false, s, nil
 	case "panic":
 		return strings.Contains(s, "VERIF-PANIC") || strings.Contains(s, "panic:"), s, nil
 	case "deadlock":
